@@ -457,6 +457,9 @@ def handle (toks : List String) : String :=
           showList showRat ((List.range (own.length + 1)).map fun i => Z.get i 0)
       else "bad-op"
     | _, _, _, _ => "bad-op"
+  | "tols" :: _ =>
+    -- the documented constants of optimize/pivoting.py (TOL_PIV, TOL_RATIO_DIFF) as the model pins them
+    showFloatBits tolPivF ++ " " ++ showFloatBits tolRatioDiffF
   | "ksub" :: r =>
     match kvNat r "n", kvNat r "k" with
     | some n, some k => showMat toString (kSubsets n k)
